@@ -366,14 +366,33 @@ const EXCLUDED: &[(&str, &str)] = &[
 // ---------------------------------------------------------------------------
 // the forced-value plan
 
+/// what the judge needs to know about the wrapper under test (table entry or ladder entry)
+struct Spec {
+    name: &'static str,
+    nr: i64,
+    ty: Ty,
+    infallible: bool,
+    fill: Option<fn(&[u64; 6])>,
+    /// the "effective arguments" of an issue: the registers, or values read through them
+    /// (msghdr / usbdevfs_bulktransfer fields).  None: the six registers.
+    probe: Option<fn(&[u64; 6]) -> Vec<u64>>,
+    /// argument-size ladder case: the size
+    size: Option<usize>,
+}
+
 struct Force<'a> {
     /// answer to the i-th issue; the last one is repeated
     script: &'a [i64],
     fill: Option<fn(&[u64; 6])>,
+    probe: Option<fn(&[u64; 6]) -> Vec<u64>>,
+    /// effective arguments of the first two issues
+    seen: Vec<Vec<u64>>,
     first_nr: i64,
-    /// the wrapper went past HORIZON issues and was given terminating answers
+    /// issues from this index on get terminating answers
+    horizon: usize,
+    /// the wrapper went past the horizon and was given terminating answers
     over: bool,
-    name: &'static str,
+    case: &'a str,
 }
 
 fn is_err(v: i64) -> bool {
@@ -385,15 +404,20 @@ impl Plan for Force<'_> {
         if idx == 0 {
             self.first_nr = nr;
         }
+        if idx < 2 {
+            self.seen.push(match self.probe {
+                Some(p) => p(args),
+                None => args.to_vec(),
+            });
+        }
         let mut v = if idx < self.script.len() { self.script[idx] } else { *self.script.last().unwrap() };
-        if idx >= HORIZON.max(self.script.len() + 2) {
+        if idx >= self.horizon {
             self.over = true;
             // terminating answers: plain success first, then a plain error
-            v = if idx < 2 * HORIZON { 0 } else { -22 };
-            if idx >= 4 * HORIZON {
+            v = if idx < self.horizon + HORIZON { 0 } else { -22 };
+            if idx >= self.horizon + 3 * HORIZON {
                 // still spinning whatever the answer: die, attributed to the case
-                let c = format!("{{\"op\":\"{}:livelock\",\"v\":\"{}\"}}", self.name, show_script(self.script));
-                set_case(&c);
+                set_case(&self.case.replacen("\",", ":livelock\",", 1));
                 unsafe { libc::abort() };
             }
         }
@@ -406,11 +430,33 @@ impl Plan for Force<'_> {
     }
 }
 
+/// run-length form: `-16x128,0`
 fn show_script(s: &[i64]) -> String {
-    s.iter().map(|v| v.to_string()).collect::<Vec<_>>().join(",")
+    let mut out: Vec<String> = Vec::new();
+    let mut i = 0;
+    while i < s.len() {
+        let mut j = i;
+        while j < s.len() && s[j] == s[i] {
+            j += 1;
+        }
+        out.push(if j - i > 1 { format!("{}x{}", s[i], j - i) } else { s[i].to_string() });
+        i = j;
+    }
+    out.join(",")
 }
 fn parse_script(s: &str) -> Vec<i64> {
-    s.split(',').filter_map(|x| x.trim().parse::<i64>().ok()).collect()
+    let mut v = Vec::new();
+    for part in s.split(',') {
+        let part = part.trim();
+        let (val, rep) = match part.split_once('x') {
+            Some((a, b)) => (a, b.parse::<usize>().unwrap_or(1)),
+            None => (part, 1),
+        };
+        if let Ok(x) = val.parse::<i64>() {
+            v.extend(std::iter::repeat(x).take(rep.min(1 << 20)));
+        }
+    }
+    v
 }
 
 fn carries(ty: Ty, v: i64) -> Option<i128> {
@@ -423,67 +469,84 @@ fn carries(ty: Ty, v: i64) -> Option<i128> {
     }
 }
 
-struct Obs {
-    got: Result<Got, String>,
-    calls: Vec<i64>,
-    first_nr: i64,
-    over: bool,
-}
-
-fn invoke(e: &Entry, script: &[i64]) -> Obs {
-    let mut plan = Force { script, fill: e.fill, first_nr: -1, over: false, name: e.name };
-    let call = e.call;
-    let res = catch(|| sysx::run(&mut plan, call));
-    match res {
-        Ok((got, log)) => Obs { got: Ok(got), calls: log.iter().map(|c| c.ret).collect(), first_nr: plan.first_nr, over: plan.over },
-        Err(p) => Obs { got: Err(p), calls: vec![], first_nr: plan.first_nr, over: plan.over },
+/// is `got` the decoding of the kernel answer `a`?
+fn decodes(ty: Ty, a: i64, got: Got) -> bool {
+    match (is_err(a), got) {
+        (true, Got::Err(Some(c))) => c as i64 == -a,
+        (false, Got::Ok(x)) => match (carries(ty, a), x) {
+            (Some(w), Some(h)) => w == h,
+            _ => true,
+        },
+        _ => false,
     }
 }
 
-fn may_retry_ebusy(e: &Entry) -> bool {
-    matches!(base_name(e.name), "unistd::dup2" | "unistd::dup3")
+fn may_retry_ebusy(name: &str) -> bool {
+    matches!(base_name(name), "unistd::dup2" | "unistd::dup3")
 }
 
-/// One case: the wrapper invoked once, its call(s) answered by `script`.
+fn spec_of(e: &Entry) -> Spec {
+    Spec { name: e.name, nr: e.nr, ty: e.ty, infallible: e.infallible, fill: e.fill, probe: None, size: None }
+}
+
+/// One case of a table entry: the wrapper invoked once, its call(s) answered by `script`.
 fn one_case(e: &Entry, script: &[i64], r: &mut Report, verbose: bool) {
+    let call = e.call;
+    let horizon = if script.len() > 1 { script.len() + 7 } else { HORIZON };
+    judge(&spec_of(e), script, horizon, &|| (call(), Vec::new()), r, verbose);
+}
+
+/// Runs the invocation under the forced-value plan and applies the oracle.
+/// `call` returns the wrapper's result and the effective arguments the kernel must have been given
+/// (None = position not checked; empty = nothing checked).
+fn judge(sp: &Spec, script: &[i64], horizon: usize, call: &dyn Fn() -> (Got, Vec<Option<u64>>), r: &mut Report, verbose: bool) {
     r.eval();
     r.nontrivial_unique();
     let vs = show_script(script);
-    set_case(&format!("{{\"op\":\"{}\",\"v\":\"{}\"}}", e.name, vs));
-    let o = invoke(e, script);
+    let case_s = match sp.size {
+        Some(n) => format!("{{\"op\":\"{}\",\"n\":{n},\"v\":\"{vs}\"}}", sp.name),
+        None => format!("{{\"op\":\"{}\",\"v\":\"{vs}\"}}", sp.name),
+    };
+    set_case(&case_s);
+    let mut plan = Force { script, fill: sp.fill, probe: sp.probe, seen: Vec::new(), first_nr: -1, horizon, over: false, case: &case_s };
+    let res = catch(|| sysx::run(&mut plan, call));
     clear_case();
-    let case = || json!({"op": e.name, "v": vs});
-    let key = |k: &str| format!("C09:{}:{k}", base_name(e.name));
-    if verbose {
-        println!("{}: answers [{}] -> {:?}; issued {} call(s) {:?}", e.name, vs, o.got, o.calls.len(), o.calls);
-    }
-    let got = match o.got {
+    let case = || serde_json::from_str::<Value>(&case_s).unwrap_or(Value::Null);
+    let key = |k: &str| format!("C09:{}:{k}", base_name(sp.name));
+    let at = match sp.size {
+        Some(n) => format!("{} (size {n})", sp.name),
+        None => sp.name.to_string(),
+    };
+    let ((got, want_args), calls): ((Got, Vec<Option<u64>>), Vec<i64>) = match res {
         Err(p) => {
             r.outcome("VIOLATION/panic");
-            r.violation(&key("panic"), format!("{} panicked when the kernel result was forced to {vs}: {p}", e.name), case());
+            r.violation(&key("panic"), format!("{at} panicked when the kernel result was forced to {vs}: {p}"), case());
             return;
         }
-        Ok(g) => g,
+        Ok((g, log)) => (g, log.iter().map(|c| c.ret).collect()),
     };
-    if o.first_nr != e.nr && !o.calls.is_empty() {
-        r.cap(format!("harness: {} issued {} but the table expects {}", e.name, sysx::name(o.first_nr), sysx::name(e.nr)));
+    if verbose {
+        println!("{at}: answers [{vs}] -> {got:?}; issued {} call(s), answers given [{}]", calls.len(), show_script(&calls));
+    }
+    if plan.first_nr != sp.nr && !calls.is_empty() {
+        r.cap(format!("harness: {} issued {} but the table expects {}", sp.name, sysx::name(plan.first_nr), sysx::name(sp.nr)));
         r.note("machinery-failure");
         return;
     }
     // --- how often the call was issued
-    let n = o.calls.len();
-    let retry_ok = may_retry_ebusy(e) && n >= 1 && o.calls[..n - 1].iter().all(|&a| a == -EBUSY);
+    let n = calls.len();
+    let retry_ok = may_retry_ebusy(sp.name) && n >= 1 && calls[..n - 1].iter().all(|&a| a == -EBUSY);
     let mut count_ok = true;
     if n != 1 && !retry_ok {
         count_ok = false;
         let v_last_scripted = *script.last().unwrap();
-        if o.over && !is_err(v_last_scripted) {
+        if sp.size.is_none() && plan.over && !is_err(v_last_scripted) && calls[..horizon.min(n)].iter().all(|&a| a == v_last_scripted) {
             r.outcome("VIOLATION/retries-on-success-value");
             r.violation(
                 &key("retries-on-success-value"),
                 format!(
-                    "{} keeps re-issuing its system call as long as the kernel returns the success value {v_last_scripted}: {n} issues (answers {:?}; only ended by the harness answering differently after {HORIZON})",
-                    e.name, o.calls
+                    "{at} keeps re-issuing its system call as long as the kernel returns the success value {v_last_scripted}: {n} issues (answers [{}]; only ended by the harness answering differently after {horizon})",
+                    show_script(&calls)
                 ),
                 case(),
             );
@@ -491,36 +554,60 @@ fn one_case(e: &Entry, script: &[i64], r: &mut Report, verbose: bool) {
             r.outcome("VIOLATION/issued-N-times");
             r.violation(
                 &key("issued-N-times"),
-                format!("{} issued its system call {n} times in one invocation (answers {:?}); exactly one is allowed", e.name, o.calls),
+                format!("{at} issued its system call {n} times in one invocation (answers [{}]); exactly one is allowed", show_script(&calls)),
+                case(),
+            );
+        }
+    }
+    // --- the arguments the kernel was given (ladder cases)
+    if !want_args.is_empty() {
+        let have = plan.seen.first().cloned().unwrap_or_default();
+        let bad: Vec<usize> = want_args.iter().enumerate().filter(|(i, w)| w.is_some_and(|w| have.get(*i) != Some(&w))).map(|x| x.0).collect();
+        if !bad.is_empty() {
+            r.outcome("VIOLATION/arguments-changed");
+            r.violation(
+                &key("arguments-changed"),
+                format!("{at}: the first issue was given effective arguments {have:x?}, expected {want_args:x?} (positions {bad:?} differ from the caller's pointer/length)"),
                 case(),
             );
         }
     }
     if script.len() > 1 && count_ok {
-        // dup2/dup3 under -EBUSY×k then w: giving up at the first EBUSY and repeating are both allowed
-        r.outcome(if n == 1 { "ebusy-script/gave-up-at-first-EBUSY" } else { "ebusy-script/repeated-until-other-answer" });
+        // dup2/dup3 under -EBUSY×k then w: giving up at an EBUSY and repeating are both allowed
+        r.outcome(if n == 1 {
+            "ebusy-script/gave-up-at-first-EBUSY"
+        } else if n < script.len() {
+            "ebusy-script/gave-up-at-a-later-EBUSY"
+        } else {
+            "ebusy-script/repeated-until-other-answer"
+        });
     }
-    // --- decoding of the value the wrapper saw last
-    let v = o.calls.last().copied().unwrap_or(script[0]);
+    // --- decoding: the result is decided by the answer the wrapper saw last
+    let v = calls.last().copied().unwrap_or(script[0]);
+    if n > 1 && !decodes(sp.ty, v, got) && !(is_err(v) && matches!(got, Got::Ok(_))) && !calls.iter().any(|&a| decodes(sp.ty, a, got)) {
+        r.outcome("VIOLATION/result-matches-no-kernel-answer");
+        r.violation(
+            &key("result-matches-no-kernel-answer"),
+            format!("{at}: returned {got:?}, which is the decoding of none of the {n} kernel answers given [{}]", show_script(&calls)),
+            case(),
+        );
+        return;
+    }
     match (is_err(v), got) {
         (true, Got::Err(Some(c))) if c as i64 == -v => r.outcome("err/errno-exact"),
         (true, Got::Err(c)) => {
             r.outcome("VIOLATION/wrong-errno");
-            r.violation(
-                &key("wrong-errno"),
-                format!("{}: kernel result {v} must give Err with errno {}, got errno {c:?}", e.name, -v),
-                case(),
-            );
+            r.violation(&key("wrong-errno"), format!("{at}: kernel result {v} must give Err with errno {}, got errno {c:?}", -v), case());
         }
         (true, Got::Ok(x)) => {
-            if e.infallible {
+            if sp.infallible {
                 // cannot happen: error values are not forced on infallible signatures
                 r.outcome("infallible/error-discarded");
             } else {
                 r.outcome("VIOLATION/error-reported-as-success");
                 r.violation(
                     &key("error-reported-as-success"),
-                    format!("{}: kernel result {v} (errno {}) was reported as Ok({x:?})", e.name, -v),
+                    format!("{at}: the last kernel result was {v} (errno {}) after answers [{}], but the wrapper reported Ok({x:?})", -v, show_script(&calls)),
                     case(),
                 );
             }
@@ -529,24 +616,22 @@ fn one_case(e: &Entry, script: &[i64], r: &mut Report, verbose: bool) {
             r.outcome("VIOLATION/success-reported-as-error");
             r.violation(
                 &key("success-reported-as-error"),
-                format!("{}: kernel result {v} ({:#x}) is outside [-4095,-1] but was reported as Err(errno {c:?})", e.name, v as u64),
+                format!("{at}: kernel result {v} ({:#x}) is outside [-4095,-1] but was reported as Err(errno {c:?})", v as u64),
                 case(),
             );
         }
-        (false, Got::Ok(x)) => match (carries(e.ty, v), x) {
+        (false, Got::Ok(x)) => match (carries(sp.ty, v), x) {
             (Some(want), Some(have)) if want != have => {
                 r.outcome("VIOLATION/value-changed");
-                r.violation(
-                    &key("value-changed"),
-                    format!("{}: kernel result {v} ({:#x}) came back as Ok({have}) ({:?})", e.name, v as u64, e.ty),
-                    case(),
-                );
+                r.violation(&key("value-changed"), format!("{at}: kernel result {v} ({:#x}) came back as Ok({have}) ({:?})", v as u64, sp.ty), case());
             }
             (Some(_), Some(_)) => {
                 if !count_ok {
+                } else if sp.size.is_some() {
+                    r.outcome("ladder/ok-value-preserved")
                 } else if (-4096 - 65536..=-4096).contains(&v) {
                     r.outcome("ok/boundary-below-errno-range-preserved")
-                } else if e.infallible {
+                } else if sp.infallible {
                     r.outcome("ok/infallible-value-preserved")
                 } else if v >= 0 && v <= 4095 {
                     r.outcome("ok/errno-sized-value-preserved")
@@ -555,14 +640,16 @@ fn one_case(e: &Entry, script: &[i64], r: &mut Report, verbose: bool) {
                 }
             }
             (Some(_), None) => {
-                r.cap(format!("harness: {} is typed {:?} but its invocation returns no number", e.name, e.ty));
+                r.cap(format!("harness: {} is typed {:?} but its invocation returns no number", sp.name, sp.ty));
                 r.note("machinery-failure");
             }
             (None, _) => {
                 if !count_ok {
                 } else if n > 1 {
-                    r.outcome(&format!("ok/after-{}-EBUSY-retries", n - 1))
-                } else if e.ty == Ty::Unit {
+                    r.outcome("ok/after-EBUSY-retries")
+                } else if sp.size.is_some() {
+                    r.outcome("ladder/ok-unit")
+                } else if sp.ty == Ty::Unit {
                     r.outcome(if v == 0 { "ok/unit-zero" } else { "ok/unit-nonzero-success" })
                 } else {
                     r.outcome("ok/value-outside-result-type(ok-only)")
@@ -570,6 +657,224 @@ fn one_case(e: &Entry, script: &[i64], r: &mut Report, verbose: bool) {
             }
         },
     }
+}
+
+// ---------------------------------------------------------------------------
+// argument-size ladder: wrappers that take a slice / count / length
+
+struct Ladder {
+    name: &'static str,
+    nr: i64,
+    ty: Ty,
+    /// smallest admissible size (NonZeroUsize lengths: 1)
+    min: usize,
+    /// the invocation with size n: (result, expected effective arguments)
+    call: fn(usize) -> (Got, Vec<Option<u64>>),
+    probe: Option<fn(&[u64; 6]) -> Vec<u64>>,
+}
+
+/// struct msghdr through args[1]: [iov pointer, iov count, control pointer, control length]
+fn probe_msghdr(a: &[u64; 6]) -> Vec<u64> {
+    unsafe {
+        let p = a[1] as *const u8;
+        let rd = |off: usize| (p.add(off) as *const u64).read_unaligned();
+        vec![rd(16), rd(24), rd(32), rd(40)]
+    }
+}
+/// struct usbdevfs_bulktransfer through args[2]: [len, data pointer]
+fn probe_bulk(a: &[u64; 6]) -> Vec<u64> {
+    unsafe {
+        let p = a[2] as *const u8;
+        vec![(p.add(4) as *const u32).read_unaligned() as u64, (p.add(16) as *const u64).read_unaligned()]
+    }
+}
+
+fn iov_mut(n: usize, b: &mut [u8; 8]) -> Vec<IoSliceMut<'static>> {
+    let p = b.as_mut_ptr();
+    (0..n).map(|_| IoSliceMut::new(unsafe { std::slice::from_raw_parts_mut(p, 8) })).collect()
+}
+fn iov(n: usize) -> Vec<IoSlice<'static>> {
+    (0..n).map(|_| IoSlice::new(b"x")).collect()
+}
+
+macro_rules! l {
+    ($name:expr, $nr:ident, $ty:ident, $min:expr, $call:expr) => {
+        Ladder { name: $name, nr: libc::$nr, ty: Ty::$ty, min: $min, call: $call, probe: None }
+    };
+    ($name:expr, $nr:ident, $ty:ident, $min:expr, $call:expr, probe $p:expr) => {
+        Ladder { name: $name, nr: libc::$nr, ty: Ty::$ty, min: $min, call: $call, probe: Some($p) }
+    };
+}
+
+fn ladder() -> Vec<Ladder> {
+    use rusl::unistd as u;
+    const S: fn(u64) -> Option<u64> = Some;
+    vec![
+        l!("unistd::read", SYS_read, U64, 0, |n| {
+            let mut b = vec![0u8; n];
+            let p = b.as_mut_ptr() as u64;
+            (cnt(u::read(fd_a(), &mut b)), vec![None, S(p), S(n as u64)])
+        }),
+        l!("unistd::write", SYS_write, U64, 0, |n| {
+            let b = vec![0u8; n];
+            let p = b.as_ptr() as u64;
+            (cnt(u::write(fd_a(), &b)), vec![None, S(p), S(n as u64)])
+        }),
+        l!("unistd::readv", SYS_readv, U64, 0, |n| {
+            let mut b = [0u8; 8];
+            let mut io = iov_mut(n, &mut b);
+            let p = io.as_mut_ptr() as u64;
+            (cnt(u::readv(fd_a(), &mut io)), vec![None, S(p), S(n as u64)])
+        }),
+        l!("unistd::writev", SYS_writev, U64, 0, |n| {
+            let io = iov(n);
+            let p = io.as_ptr() as u64;
+            (cnt(u::writev(fd_a(), &io)), vec![None, S(p), S(n as u64)])
+        }),
+        l!("unistd::get_dents", SYS_getdents64, U64, 0, |n| {
+            let mut b = vec![0u8; n];
+            let p = b.as_mut_ptr() as u64;
+            (cnt(u::get_dents(fd_a(), &mut b)), vec![None, S(p), S(n as u64)])
+        }),
+        l!("unistd::copy_file_range", SYS_copy_file_range, U64, 0, |n| {
+            (cnt(u::copy_file_range(fd_a(), 0, fd_b(), 0, n)), vec![None, None, None, None, S(n as u64)])
+        }),
+        l!("unistd::mmap", SYS_mmap, U64, 1, |n| {
+            let r = unsafe {
+                u::mmap(None, NonZeroUsize::new(n).unwrap(), MemoryProtection::PROT_READ, MapRequiredFlag::MapPrivate, MapAdditionalFlags::MAP_ANONYMOUS, None, 0)
+            };
+            (cnt(r), vec![S(0), S(n as u64)])
+        }),
+        l!("unistd::munmap", SYS_munmap, Unit, 1, |n| {
+            (unit(unsafe { u::munmap(0x7000_0000_0000, NonZeroUsize::new(n).unwrap()) }), vec![S(0x7000_0000_0000), S(n as u64)])
+        }),
+        l!("select::ppoll", SYS_ppoll, U64, 0, |n| {
+            let mut pf = vec![PollFd::new(fd_a(), PollEvents::POLLIN); n];
+            let p = pf.as_mut_ptr() as u64;
+            (cnt(rusl::select::ppoll(&mut pf, None, None)), vec![S(p), S(n as u64), S(0), S(0)])
+        }),
+        l!("select::epoll_wait", SYS_epoll_pwait, U64, 0, |n| {
+            let mut ev = vec![EpollEvent::new(0, EpollEventMask::empty()); n];
+            let p = ev.as_mut_ptr() as u64;
+            (cnt(rusl::select::epoll_wait(fd_a(), &mut ev, 0)), vec![None, S(p), S(n as u64)])
+        }),
+        l!("network::sendmsg#iov", SYS_sendmsg, U64, 0, |n| {
+            let io = iov(n);
+            let p = io.as_ptr() as u64;
+            let g = MsgHdrBorrow::create_send(None, &io, None);
+            (cnt(rusl::network::sendmsg(fd_a(), &g, 0)), vec![S(p), S(n as u64), S(0), S(0)])
+        }, probe probe_msghdr),
+        l!("network::sendmsg#scm-rights-fds", SYS_sendmsg, U64, 0, |n| {
+            let io = iov(1);
+            let p = io.as_ptr() as u64;
+            let fds = vec![fd_b(); n];
+            let g = MsgHdrBorrow::create_send(None, &io, Some(ControlMessageSend::ScmRights(&fds)));
+            // the control length is computed by rusl (CMSG_SPACE), not passed through: not checked
+            (cnt(rusl::network::sendmsg(fd_a(), &g, 0)), vec![S(p), S(1), None, None])
+        }, probe probe_msghdr),
+        l!("network::recvmsg#iov", SYS_recvmsg, U64, 0, |n| {
+            let mut b = [0u8; 8];
+            let mut io = iov_mut(n, &mut b);
+            let p = io.as_mut_ptr() as u64;
+            let mut h = MsgHdrBorrow::create_recv(&mut io, None);
+            (cnt(rusl::network::recvmsg(fd_a(), &mut h, 0)), vec![S(p), S(n as u64), S(0), S(0)])
+        }, probe probe_msghdr),
+        l!("network::recvmsg#control-len", SYS_recvmsg, U64, 0, |n| {
+            let mut b = [0u8; 8];
+            let mut io = iov_mut(1, &mut b);
+            let p = io.as_mut_ptr() as u64;
+            let mut ctl = vec![0u8; n];
+            let cp = ctl.as_mut_ptr() as u64;
+            let mut h = MsgHdrBorrow::create_recv(&mut io, Some(&mut ctl));
+            (cnt(rusl::network::recvmsg(fd_a(), &mut h, 0)), vec![S(p), S(1), S(cp), S(n as u64)])
+        }, probe probe_msghdr),
+        l!("network::listen", SYS_listen, Unit, 0, |n| {
+            (unit(rusl::network::listen(fd_a(), NonNegativeI32::try_new(n as i32).unwrap())), vec![None, S(n as u64)])
+        }),
+        l!("futex::futex_wake", SYS_futex, U64, 0, |n| {
+            let a = AtomicU32::new(0);
+            (cnt(rusl::futex::futex_wake(&a, n as i32)), vec![S(&a as *const AtomicU32 as u64), None, S(n as u64)])
+        }),
+        l!("io_uring::io_uring_enter", SYS_io_uring_enter, U64, 0, |n| {
+            (cnt(rusl::io_uring::io_uring_enter(fd_a(), n as u32, n as u32, IoUringEnterFlags::IORING_ENTER_GETEVENTS)), vec![None, S(n as u64), S(n as u64)])
+        }),
+        l!("io_uring::io_uring_register_files", SYS_io_uring_register, Unit, 0, |n| {
+            let fds = vec![fd_b(); n];
+            let p = fds.as_ptr() as u64;
+            (unit(rusl::io_uring::io_uring_register_files(fd_a(), &fds)), vec![None, None, S(p), S(n as u64)])
+        }),
+        l!("io_uring::io_uring_register_io_slices", SYS_io_uring_register, Unit, 0, |n| {
+            let mut b = [0u8; 8];
+            let io = iov_mut(n, &mut b);
+            let p = io.as_ptr() as u64;
+            (unit(rusl::io_uring::io_uring_register_io_slices(fd_a(), &io)), vec![None, None, S(p), S(n as u64)])
+        }),
+        l!("io_uring::io_uring_register_buffers", SYS_io_uring_register, Unit, 0, |n| {
+            let mut b = [0u8; 8];
+            let io = iov_mut(n, &mut b);
+            let p = io.as_ptr() as u64;
+            (unit(unsafe { rusl::io_uring::io_uring_register_buffers(fd_a(), &io) }), vec![None, None, S(p), S(n as u64)])
+        }),
+        l!("usb::bulk_transfer", SYS_ioctl, U64, 0, |n| {
+            let mut b = vec![0u8; n];
+            let p = b.as_mut_ptr() as u64;
+            (cnt(rusl::usb::bulk_transfer(fd_a(), 1, &mut b, 10)), vec![S(n as u64), S(p)])
+        }, probe probe_bulk),
+    ]
+}
+
+/// scanned functions with a slice parameter that deliberately have no ladder entry
+const LADDER_EXCLUDED: &[(&str, &str)] = &[];
+
+fn ladder_sizes(thorough: bool) -> Vec<usize> {
+    let mut v: Vec<usize> = if thorough { (0..=2100).collect() } else { vec![0, 1, 2, 1023, 1024, 1025, 2048] };
+    v.extend([4095, 4096, 4097, 5000, 65535, 65536, 65537, (1 << 20) - 1, 1 << 20, (1 << 20) + 1].iter().filter(|x| thorough || [4096, 5000, 65536, 1 << 20].contains(*x)));
+    v
+}
+fn ladder_answers(n: usize, ty: Ty) -> Vec<i64> {
+    let mut v = vec![0i64, 1];
+    for x in [n as i64, -22, -4, -11] {
+        if !v.contains(&x) {
+            v.push(x);
+        }
+    }
+    if ty != Ty::Unit {
+        v.push(i32::MAX as i64);
+    }
+    v
+}
+fn ladder_cases(l: &Ladder, thorough: bool) -> Vec<(usize, i64)> {
+    let mut c = Vec::new();
+    for n in ladder_sizes(thorough) {
+        if n >= l.min {
+            for a in ladder_answers(n, l.ty) {
+                c.push((n, a));
+            }
+        }
+    }
+    c
+}
+
+fn ladder_case(l: &Ladder, n: usize, script: &[i64], r: &mut Report, verbose: bool) {
+    let sp = Spec { name: l.name, nr: l.nr, ty: l.ty, infallible: false, fill: None, probe: l.probe, size: Some(n) };
+    let call = l.call;
+    judge(&sp, script, HORIZON, &|| call(n), r, verbose);
+}
+
+fn run_ladder(l: &Ladder, thorough: bool) -> Report {
+    let mut r = Report::new();
+    unsafe {
+        libc::signal(libc::SIGALRM, on_alarm as extern "C" fn(libc::c_int) as usize);
+    }
+    for (i, (n, a)) in ladder_cases(l, thorough).into_iter().enumerate() {
+        if i % 64 == 0 {
+            unsafe { libc::alarm(30) };
+        }
+        ladder_case(l, n, &[a], &mut r, false);
+    }
+    unsafe { libc::alarm(0) };
+    r.outcome_n("ladder/wrappers", 1);
+    r
 }
 
 // ---------------------------------------------------------------------------
@@ -658,11 +963,13 @@ fn values(e: &Entry, thorough: bool) -> Vec<i64> {
     v
 }
 
-/// dup2/dup3 only: `-EBUSY` k times, then a final answer
+/// dup2/dup3 only: `-EBUSY` k times, then a final answer (horizon k + 8 issues)
+const EBUSY_KS: &[usize] = &[1, 2, 3, 7, 8, 9, 15, 16, 17, 63, 64, 65, 127, 128, 129, 255, 256, 257, 1000, 4096];
+const EBUSY_FINALS: &[i64] = &[0, 5, 16, -9, -24];
 fn ebusy_scripts() -> Vec<Vec<i64>> {
     let mut s = Vec::new();
-    for k in 1..=3usize {
-        for w in [0i64, 5, 16, -9, -24] {
+    for &k in EBUSY_KS {
+        for &w in EBUSY_FINALS {
             let mut x = vec![-EBUSY; k];
             x.push(w);
             s.push(x);
@@ -688,7 +995,8 @@ fn run_wrapper(e: &Entry, thorough: bool) -> Report {
         }
         one_case(e, &[v], &mut r, false);
     }
-    if may_retry_ebusy(e) {
+    if may_retry_ebusy(e.name) {
+        unsafe { libc::alarm(60) };
         for s in ebusy_scripts() {
             one_case(e, &s, &mut r, false);
         }
@@ -712,7 +1020,7 @@ fn completeness(tab: &[Entry]) -> (Vec<String>, Vec<String>, Vec<String>, Vec<St
     let mut missing = Vec::new();
     let mut ambiguous = Vec::new();
     let mut keys = std::collections::BTreeMap::<String, usize>::new();
-    for (m, f, _) in SCANNED {
+    for (m, f, _, _) in SCANNED {
         *keys.entry(scanned_key(m, f)).or_insert(0) += 1;
     }
     for (k, n) in &keys {
@@ -738,9 +1046,24 @@ fn c09(args: &Args) -> Report {
     let thorough = args.thorough;
     let mut n_cases = 0usize;
     for e in tab {
-        n_cases += values(&e, thorough).len() + if may_retry_ebusy(&e) { ebusy_scripts().len() } else { 0 };
+        n_cases += values(&e, thorough).len() + if may_retry_ebusy(e.name) { ebusy_scripts().len() } else { 0 };
         items.push(isolated(e.name, move || run_wrapper(&e, thorough)));
     }
+    let lad = ladder();
+    let n_ladder = lad.len();
+    let lad_names: std::collections::BTreeSet<&str> = lad.iter().map(|l| base_name(l.name)).collect();
+    let slice_missing: Vec<String> = SCANNED
+        .iter()
+        .filter(|s| s.3)
+        .map(|s| scanned_key(s.0, s.1))
+        .filter(|k| !lad_names.contains(k.as_str()) && !LADDER_EXCLUDED.iter().any(|x| x.0 == k) && !EXCLUDED.iter().any(|x| x.0 == k))
+        .collect();
+    let mut n_ladder_cases = 0usize;
+    for l in lad {
+        n_ladder_cases += ladder_cases(&l, thorough).len();
+        items.push(isolated(format!("ladder:{}", l.name), move || run_ladder(&l, thorough)));
+    }
+    n_cases += n_ladder_cases;
     // rotate the start order by the seed (no effect on the set of cases)
     if !items.is_empty() {
         let k = (args.seed as usize) % items.len();
@@ -753,7 +1076,10 @@ fn c09(args: &Args) -> Report {
     for a in &ambiguous {
         r.cap(format!("wrapper name {a} is ambiguous in the source scan (two files define it)"));
     }
-    if !missing.is_empty() || !ambiguous.is_empty() {
+    for m in &slice_missing {
+        r.cap(format!("wrapper {m} takes a slice but has no argument-size ladder entry (and is not in LADDER_EXCLUDED)"));
+    }
+    if !missing.is_empty() || !ambiguous.is_empty() || !slice_missing.is_empty() {
         r.note("machinery-failure");
     }
     if SCANNED.len() < 60 {
@@ -769,14 +1095,22 @@ fn c09(args: &Args) -> Report {
          its system call is suppressed and the raw result forced to v, for EVERY v in: 0..={} ; every error -1..=-4095 (fallible signatures); the band just below the errno range {}..=-4096; i32::MAX; \
          2^k-1 and 2^k for k=12..=30; and — where the result type can carry them — 2^31, 0xFFFFF000, u32::MAX (u32/64-bit results), 2^k-1, 2^k, -2^k, -2^k-1 for k=32..=62, 0x7fff_ffff_f000, isize::MAX, i64::MIN(+4095,+4096), \
          -2^31(-1), -65536, -8192, -4098 (64-bit results), page-aligned addresses k<<12 (k=1..=256) and ten high addresses up to 0xffff_ffff_ffff_f000 (mmap); execve only the errors (it does not return on success); \
-         get_pid / clock_get_real_time / clock_get_monotonic_time only the non-error values (no error channel in the signature). dup2/dup3 additionally -EBUSY×k (k=1..=3) followed by each of 0,5,16,-9,-24. \
+         get_pid / clock_get_real_time / clock_get_monotonic_time only the non-error values (no error channel in the signature). dup2/dup3 additionally -EBUSY×k for k in {:?} followed by each of {:?} (horizon k+8 issues; the result must be the decoding of the last answer given — giving up at an EBUSY with Err(EBUSY) is accepted). \
+         ARGUMENT-SIZE LADDER: {n_ladder} invocations of wrappers taking a slice / count / length (every scanned wrapper with a slice parameter, plus copy_file_range, mmap, munmap, listen, futex_wake, io_uring_enter, sendmsg/recvmsg iov and control sizes), \
+         each with every size in {:?} x every answer in {{0, 1, size, -EINVAL, -EINTR, -EAGAIN, i32::MAX (numeric results)}}: one issue, result = decoding of that answer, pointer and count given to the kernel = the caller's. \
          Each (entry, answer script) is generated exactly once; every case is non-trivial (one real wrapper execution through the seam). Oracle: Err ⇔ v∈[-4095,-1] with errno −v; else Ok with v unchanged \
          when the result type represents it; exactly one issue (dup2/dup3: more only after -EBUSY).",
         cov.len(),
         exc.len(),
         bd.small_max,
-        bd.neg_lo
+        bd.neg_lo,
+        EBUSY_KS,
+        EBUSY_FINALS,
+        if thorough { "0..=2100, 4095..=4097, 5000, 65535..=65537, 2^20-1..=2^20+1".to_string() } else { format!("{:?}", ladder_sizes(false)) }
     );
+    r.bound("ladder_entries", n_ladder);
+    r.bound("ladder_cases", n_ladder_cases);
+    r.bound("ebusy_run_lengths", json!(EBUSY_KS));
     r.bound("wrappers_scanned", SCANNED.len());
     r.bound("wrappers_scanned_direct_syscall", SCANNED.iter().filter(|s| s.2).count());
     r.bound("wrappers_covered", cov.len());
@@ -795,7 +1129,8 @@ fn c09(args: &Args) -> Report {
     r.sample(json!({"op":"unistd::mmap","v":"-4096","expect":"Ok(0xffff_ffff_ffff_f000), one issue"}));
     r.sample(json!({"op":"process::execve","v":"-2","expect":"Err(errno 2), one issue"}));
     r.sample(json!({"op":"unistd::open","v":"2147483647","expect":"Ok(fd 2147483647)"}));
-    r.sample(json!({"op":"unistd::dup3","v":"-16,-16,5","expect":"Err(EBUSY) after one issue, or three issues and Ok"}));
+    r.sample(json!({"op":"unistd::dup3","v":"-16x128,0","expect":"Err(EBUSY) after giving up at some EBUSY, or 129 issues and Ok; never Ok after only EBUSY answers"}));
+    r.sample(json!({"op":"unistd::writev","n":1025,"v":"1","expect":"one WRITEV with the caller's pointer and count 1025, Ok(1)"}));
     r.sample(json!({"op":"unistd::lseek","v":"9223372036854775807","expect":"Ok(i64::MAX)"}));
     r
 }
@@ -804,6 +1139,25 @@ fn replay(v: &Value, r: &mut Report) {
     let op = v["op"].as_str().unwrap_or("");
     let op = op.strip_suffix(":livelock").unwrap_or(op);
     let script = parse_script(v["v"].as_str().unwrap_or(""));
+    if let Some(n) = v.get("n").and_then(|n| n.as_u64()) {
+        let lad = ladder();
+        let Some(l) = lad.iter().find(|l| l.name == op) else {
+            println!("unknown ladder wrapper {op}");
+            r.cap(format!("unknown ladder wrapper {op}"));
+            return;
+        };
+        println!("replaying {op} with size {n} and the kernel's answers forced to [{}]", show_script(&script));
+        unsafe { libc::alarm(30) };
+        ladder_case(l, n as usize, &script, r, true);
+        unsafe { libc::alarm(0) };
+        for v in r.violations.values() {
+            println!("VIOLATED {}: {}", v.key, v.desc);
+        }
+        if r.violations.is_empty() {
+            println!("no violation");
+        }
+        return;
+    }
     let tab = table();
     let Some(e) = tab.iter().find(|e| e.name == op) else {
         println!("unknown wrapper {op}");
@@ -833,8 +1187,8 @@ fn main() {
         let tab = table();
         let (cov, exc, missing, amb) = completeness(&tab);
         println!("scanned {} ({} direct), covered {}, excluded {}, missing {:?}, ambiguous {:?}", SCANNED.len(), SCANNED.iter().filter(|s| s.2).count(), cov.len(), exc.len(), missing, amb);
-        for (m, f, d) in SCANNED {
-            println!("  {m} :: {f} {}", if *d { "" } else { "(indirect)" });
+        for (m, f, d, sl) in SCANNED {
+            println!("  {m} :: {f} {}{}", if *d { "" } else { "(indirect)" }, if *sl { " [slice parameter]" } else { "" });
         }
         return;
     }
